@@ -21,6 +21,13 @@ func init() {
 	reg("C04.parse", "IVAL", "no arithmetic on a client-supplied number can overflow between parsing and use", 6, c04parse)
 	reg("C04.range", "GUARD", "deferred-publish delay rejected outside [0, MaxReqTimeout] (TCP and HTTP alike); REQ delay clamped into that range", 5, c04range)
 	reg("C04.early", "GUARD+ORIG", "scan removes a heap head only when deadline <= now; now = time.Now() of the scan worker; deadlines = time.Now().Add(timeout)", 8, c04early)
+	reg("C04.fanout", "PATH", "a deferred publish stays deferred on every channel: the per-channel copy carries the source's deferred delay", 2, func(c *an.Ctx) {
+		if f := c.P.Field("nsqd", "Message", "deferred"); f != nil {
+			fanoutCopyKeeps(c, []*types.Var{f})
+		} else {
+			c.Anchor("nsqd.Message.deferred")
+		}
+	})
 	reg("C04.touchcap", "GUARD+ORIG", "TOUCH deadline is capped at deliveryTS + MaxMsgTimeout", 2, c04touchcap)
 	reg("C04.heap", "SHAPE", "both deadline heaps are min-heaps on the compared key", 3, c04heap)
 }
